@@ -32,35 +32,49 @@ constexpr int POOL = 160;
 // siblings and leaves and (b) for the class histogram, and only while the implementation still has the three fields and they form
 // the tree the generator expects. Nothing that is read from them is an oracle; an implementation that links differently (lazy
 // insertion, a marked root, ...) is decided by the behavioural oracle alone and the position classes are waived (evidence note).
-template<typename H> constexpr bool has_links = requires(H &h) { h.child; h.backlink; h.sibling; };
-using Hook = frg::pairing_heap_hook<Elem>;
+// All reads of link fields go through templates whose node type is a template parameter: the member is then looked up only when the
+// helper is instantiated, `requires` can answer "no", and a field that still exists under its name but is no longer a plain pointer
+// to an element (a tagged word, a wrapper) counts as absent.
+template<typename E> constexpr bool has_links = requires(E *x) { static_cast<E *>(x->hook.child); static_cast<E *>(x->hook.backlink); static_cast<E *>(x->hook.sibling); };
+template<typename E> E *link_child(E *x) { if constexpr(has_links<E>) return static_cast<E *>(x->hook.child); else return nullptr; }
+template<typename E> E *link_back(E *x) { if constexpr(has_links<E>) return static_cast<E *>(x->hook.backlink); else return nullptr; }
+template<typename E> E *link_sibling(E *x) { if constexpr(has_links<E>) return static_cast<E *>(x->hook.sibling); else return nullptr; }
+// "reset": the hook compares equal, field by field, to one that was just constructed (only for the plain-pointer layout; otherwise the
+// clause is decided by pushing the element again and by the hook's own destructor assertion)
+template<typename E> bool hook_like_fresh(E *x) {
+	if constexpr(has_links<E>) {
+		alignas(E) unsigned char m[sizeof(E)]; memset(m, 0xA5, sizeof m); E *fresh = new (m) E;
+		bool same = link_child(x) == link_child(fresh) && link_back(x) == link_back(fresh) && link_sibling(x) == link_sibling(fresh);
+		fresh->~E();
+		return same;
+	} else return true;
+}
 
 struct Run {
 	Ctx &c; Heap *heap; std::vector<Elem *> ref;
 	std::vector<Elem *> order;     // traversal order of the hook links: root, then children depth first (when walkable)
 	bool walkable = true;
 	bool collect(Elem *n, Elem *expected_back) {
-		if constexpr(has_links<Hook>) {
-			for(Elem *cur = n, *prev = expected_back; cur; prev = cur, cur = cur->hook.sibling) {
-				if(order.size() >= ref.size()) return false;
-				if(!cur->in) return false;
-				if(cur->hook.backlink != prev) return false;
-				order.push_back(cur);
-				if(cur->hook.child && !collect(cur->hook.child, cur)) return false;
-			}
-			return true;
-		} else return false;
+		if(!has_links<Elem>) return false;
+		for(Elem *cur = n, *prev = expected_back; cur; prev = cur, cur = link_sibling(cur)) {
+			if(order.size() >= ref.size()) return false;
+			if(!cur->in) return false;
+			if(link_back(cur) != prev) return false;
+			order.push_back(cur);
+			if(link_child(cur) && !collect(link_child(cur), cur)) return false;
+		}
+		return true;
 	}
 	// true when the links form one tree below top() that holds exactly the contained elements
 	bool walk() {
 		order.clear();
 		if(ref.empty()) return true;
 		bool ok = false;
-		if constexpr(has_links<Hook>) { Elem *top = heap->top(); ok = top && !top->hook.backlink && !top->hook.sibling && collect(top, nullptr) && order.size() == ref.size(); }
+		if(has_links<Elem>) { Elem *top = heap->top(); ok = top && !link_back(top) && !link_sibling(top) && collect(top, nullptr) && order.size() == ref.size(); }
 		if(!ok) { order.clear(); if(walkable) { walkable = false; c.tag("hook-links-not-walkable"); } }
 		return ok;
 	}
-	unsigned children_of(Elem *x) { unsigned n = 0; if constexpr(has_links<Hook>) { if(walkable) for(Elem *k = x->hook.child; k && n < ref.size(); k = k->hook.sibling) n++; } return n; }
+	unsigned children_of(Elem *x) { unsigned n = 0; if(has_links<Elem> && walkable) for(Elem *k = link_child(x); k && n < ref.size(); k = link_sibling(k)) n++; return n; }
 	void check(const char *after) {
 		VCHECK(c, "C08", heap->empty() == ref.empty(), "after %s: empty() is %d with %zu contained elements", after, (int)heap->empty(), ref.size());
 		if(ref.empty()) return;
@@ -72,11 +86,7 @@ struct Run {
 	// just constructed; whether it can be pushed again is exercised by the re-push operations, and the hook's destructor - which asserts
 	// that it is unlinked - runs for every element at the end of the case)
 	void gone(Elem *x, const char *what) {
-		if constexpr(has_links<Hook>) {
-			alignas(Elem) unsigned char m[sizeof(Elem)]; memset(m, 0xA5, sizeof m); Elem *fresh = new (m) Elem;
-			VCHECK(c, "C08", x->hook.child == fresh->hook.child && x->hook.backlink == fresh->hook.backlink && x->hook.sibling == fresh->hook.sibling, "%s: the hook of the removed element #%d is not reset", what, x->serial);
-			fresh->~Elem();
-		}
+		VCHECK(c, "C08", hook_like_fresh(x), "%s: the hook of the removed element #%d is not reset", what, x->serial);
 	}
 	// exact containment, observed through the interface: everything comes out by pop() exactly once, in an order the comparator allows
 	// (top() is ordered before no contained element at every step), and nothing else does
@@ -138,7 +148,7 @@ void run(Ctx &c, bool scripted) {
 		if(r.walk()) {
 			x = r.order[k % r.order.size()];
 			bool root = x == r.heap->top(), first_child = false, last = false, has_children = false;
-			if constexpr(has_links<Hook>) { first_child = !root && x->hook.backlink->hook.child == x; last = !x->hook.sibling; has_children = x->hook.child; }
+			if(has_links<Elem>) { first_child = !root && link_child(link_back(x)) == x; last = !link_sibling(x); has_children = link_child(x); }
 			const char *pos = root ? "root" : first_child ? (last ? "only-child" : "first-child") : (last ? "last-sibling" : "middle-sibling");
 			c.op("remove(#%d: %s%s)", x->serial, pos, has_children ? " with children" : " leaf");
 			c.tagf("remove-%s", pos); if(!has_children) c.tag("remove-leaf");
